@@ -398,6 +398,13 @@ def pem_texts(der, marker):
         ("pem-dek-gcm", mk([lines[0], "Proc-Type: 4,ENCRYPTED", "DEK-Info: id-aes256-GCM,00112233445566778899aabb", ""] + body + [lines[-1]])),
         ("pem-dek-gcm-empty-nonce", mk([lines[0], "Proc-Type: 4,ENCRYPTED", "DEK-Info: id-aes256-GCM,", ""] + body + [lines[-1]])),
         ("pem-dek-last-line", mk([lines[0], "Proc-Type: 4,ENCRYPTED", lines[-1]])),
+        # line-structure mutations of an encrypted block (joined lines, nothing after Proc-Type, headers only)
+        ("pem-proc-type-joined-with-end", lines[0] + "\nProc-Type: 4,ENCRYPTED " + lines[-1]),
+        ("pem-proc-type-last", mk([lines[0], "Proc-Type: 4,ENCRYPTED"])),
+        ("pem-proc-type-and-dek-joined", mk([lines[0], "Proc-Type: 4,ENCRYPTED DEK-Info: DES-EDE3-CBC,0011223344556677", lines[-1]])),
+        ("pem-dek-joined-with-end", lines[0] + "\nProc-Type: 4,ENCRYPTED\nDEK-Info: DES-EDE3-CBC,0011223344556677 " + lines[-1]),
+        ("pem-begin-only", lines[0]),
+        ("pem-begin-end-joined", lines[0] + " " + lines[-1]),
         ("pem-encrypted-body-not-block-multiple", mk([lines[0], "Proc-Type: 4,ENCRYPTED", "DEK-Info: AES-128-CBC,00112233445566778899aabbccddeeff", "", "QUJD", lines[-1]])),
         ("pem-encrypted-body-empty", mk([lines[0], "Proc-Type: 4,ENCRYPTED", "DEK-Info: AES-128-CBC,00112233445566778899aabbccddeeff", "", lines[-1]])),
     ]
